@@ -15,7 +15,7 @@ def iterq(tier, seed, params):
                 ln = b - f
                 for via_clone in (False, True):
                     p = pre + (["clone"] if via_clone else [])
-                    muts = ["next", "next_back", "clone;next;next_back;as_slice"]
+                    muts = ["next", "next_back", "clone;next;next_back;as_slice", "fold!", "rfold!", "count!", "last!"]
                     muts += ["nth:%d" % k for k in range(0, ln + 3)]
                     muts += ["nth_back:%d" % k for k in range(0, ln + 3)]
                     muts += ["write:%d:%d" % (i, 500 + i) for i in range(0, ln + 2)]
@@ -24,6 +24,7 @@ def iterq(tier, seed, params):
     rng = random.Random(seed)
     nseq = 200 if tier == "quick" else 20000
     names = ["next", "next_back", "nth", "nth_back", "len", "size_hint", "as_slice", "write", "clone", "fold", "rfold", "count", "last", "debug"]
+    finals = ["fold!", "rfold!", "count!", "last!"]
     for _ in range(nseq):
         n = rng.choice(LATTICE if rng.random() < 0.7 else SMALL)
         ops = []
@@ -35,6 +36,7 @@ def iterq(tier, seed, params):
             elif o == "write":
                 o = "write:%d:%d" % (rng.randint(0, max(1, n // 2)), rng.randint(100, 999))
             ops.append(o)
+        ops.append(rng.choice(finals))
         out.append("n=%d ops=%s" % (n, ";".join(ops)))
     return out
 
@@ -136,4 +138,33 @@ def own_c05(tier, seed, params):
                     out.append("op=iter_nth n=%d front=%d back=%d arg=%d fault=%s" % (n, f, b, k, bad))
                     out.append("op=iter_nth_back n=%d front=%d back=%d arg=%d fault=%s" % (n, f, b, k, bad))
                 out.append("op=iter_last n=%d front=%d back=%d fault=%s" % (n, f, b, bad))
+    return out
+
+
+def own_c07(tier, seed, params):
+    out = []
+    rng = random.Random(seed)
+    for n in OWN_LENS:
+        counts = list(range(0, n + 4)) if n <= 8 else [0, 1, n - 1, n, n + 1, n + 2, n + 3]
+        for cnt in counts:
+            hints = [(cnt, str(cnt)), (0, "none"), (0, str(10 * n + 5)), (cnt + 1, "none"), (0, str(max(0, cnt - 1))),
+                     (n, str(n)), (n + 1, "none"), (0, str(max(0, n - 1))), (min(cnt, n), "none")]
+            for tail in ("n", "nss", ""):
+                script = "s" * cnt + tail
+                for (lo, hi) in hints:
+                    for boxed in (0, 1):
+                        for try_ in ((1, 0) if (n <= 4 or tier == "thorough") else (1,)):
+                            out.append("op=collect n=%d boxed=%d try=%d hint=%d,%s script=%s fault=none" % (n, boxed, try_, lo, hi, script))
+            # a panicking source
+            for k in fault_points(n, min(cnt, n) + 2, tier):
+                for boxed in (0, 1):
+                    out.append("op=collect n=%d boxed=%d try=1 hint=0,none script=%s fault=poll:%d" % (n, boxed, "s" * cnt + "n", k))
+    nrand = 300 if tier == "quick" else 20000
+    for _ in range(nrand):
+        n = rng.choice(OWN_LENS)
+        script = "".join(rng.choice("sssn") for _ in range(rng.randint(0, n + 4)))
+        lo = rng.choice([0, 0, n, rng.randint(0, n + 2)])
+        hi = rng.choice(["none", "none", str(n), str(rng.randint(0, n + 3))])
+        out.append("op=collect n=%d boxed=%d try=%d hint=%d,%s script=%s fault=%s" % (
+            n, rng.randint(0, 1), rng.randint(0, 1), lo, hi, script, rng.choice(["none", "none", "poll:%d" % rng.randint(0, n + 1)])))
     return out
